@@ -764,4 +764,17 @@ Proof.
   rewrite Hb in Hb'. inversion Hb' as [Hll]. rewrite <- Hll in Hl. inversion Hl. inversion Hk. congruence.
 Qed.
 
+(* why the downloader must not start a second download on a protocol that is busy (its `active_connections` guard):
+   download_blob overwrites blob / writer / future, and the honest header answering the FIRST request is then
+   "a blob we didn't request": dropped, never delivered *)
+Theorem second_download_on_busy_protocol_drops_first c h1 h2 known data r n l :
+  c_open c = true -> h1 <> h2 ->
+  parse_prefix json_loads (c_buf c ++ data) = PResp r n -> r_blob r = BrIncoming (Some h1) l ->
+  data_received H json_loads (start_download h2 known c) data = (set_buf [] (start_download h2 known c), false).
+Proof.
+  intros Ho Hne Hp Hb.
+  apply (unrequested_blob_dropped (start_download h2 known c) data r n (Some h1) l); try reflexivity; try assumption.
+  cbn. congruence.
+Qed.
+
 End Client.
